@@ -351,9 +351,37 @@ package kmipserver
 //@   pure
 //@   ghost acceptErrClosed = erris(e, net.ErrClosed)
 
-// the accept loop ends with the shutdown error exactly when the listener was closed
+// the accept loop ends with the shutdown error exactly when the listener was closed; it only accepts and hands
+// connections over: no per-connection I/O (TLS handshake) happens on the accept goroutine, where a silent
+// peer would stop the server from accepting anybody else
+//@ ghostvar tlsHandshakes int
 //@ func (*Server).Serve
 //@   requires srv != nil && srv.listener != nil && srv.logger != nil && srv.wg != nil
 //@   ensures r0 != nil
 //@   ensures acceptErrClosed ==> r0 == ErrShutdown
+//@   ensures tlsHandshakes == old(tlsHandshakes)
 //@   loop 0 ghostmod acceptErrClosed, wgAdd
+
+// ---------------------------------------------------------------------------
+// Shutdown, sequential clauses (C16): on every return path the listener has been closed, receiving has been
+// cancelled, the running requests have been awaited on this goroutine, and the root context is cancelled
+// only after that wait (the grace-period timer aside).
+
+//@ ghostvar listenerCloses int
+//@ ghostvar cancelCalls int
+//@ ghostvar wgWaits int
+//@ ghostvar cancelsAtWait int
+
+//@ iface net.Listener.Close
+//@   pure
+//@   ghost listenerCloses = old(listenerCloses) + 1
+
+//@ functype func()
+//@   pure
+//@   ghost cancelCalls = old(cancelCalls) + 1
+
+//@ func (*Server).Shutdown
+//@   requires srv != nil && srv.listener != nil && srv.recvCancel != nil && srv.cancel != nil && srv.logger != nil && srv.wg != nil
+//@   ensures listenerCloses == old(listenerCloses)+1 && wgWaits == old(wgWaits)+1
+//@   ensures cancelsAtWait == old(cancelCalls)+1 && cancelCalls == old(cancelCalls)+2
+//@   ghostmod listenerCloses, cancelCalls, wgWaits, cancelsAtWait
